@@ -36,27 +36,38 @@ import vlib
 PID = "C18"
 
 
-def judge_events(events, tag):
-    p = os.path.join(vlib.scratch(), f"a2ml_events_{tag}.ndjson")
-    vlib.write_ndjson(p, events)
-    tr = vlib.tlc("Trace_A2ml", workers=1, dfs=True, coverage=False, env={"TRACE": p}, timeout=3400, heap="10g", expect_violation=True)
-    if not tr.ok:
-        vlib.tool_error(f"Trace_A2ml did not consume all events: {tr.errors[:3]}")
-    rejected, trees, cur = {}, {}, []
-    for line in tr.raw_lines("<<"):
-        m = re.match(r'<<"FAILED", "([^"]+)">>', line)
-        if m:
-            cur.append(m.group(1))
-            continue
-        m = re.match(r'<<"REJECT", (\d+)>>', line)
-        if m:
-            rejected[int(m.group(1)) - 1] = cur or ["?"]
-            cur = []
-            continue
-        m = re.match(r'<<"TREE", (\d+), (".*")>>$', line)
-        if m:
-            trees[int(m.group(1)) - 1] = json.loads(json.loads(m.group(2)))
-    return rejected, trees, tr
+def judge_events(events, tag, chunk=60000):
+    """Trace_A2ml over the events, in chunks (one TLC run each); returns (rejected {index: [names]}, trees {index: tree},
+    the TlcResult of the last chunk with the counters of all chunks added up)"""
+    rejected, trees = {}, {}
+    tr_all, distinct, generated = None, 0, 0
+    for base in range(0, max(1, len(events)), chunk):
+        part = events[base:base + chunk]
+        p = os.path.join(vlib.scratch(), f"a2ml_events_{tag}_{base}.ndjson")
+        vlib.write_ndjson(p, part)
+        tr = vlib.tlc("Trace_A2ml", workers=1, dfs=True, coverage=False, env={"TRACE": p}, timeout=3400, heap="12g", expect_violation=True)
+        if not tr.ok:
+            vlib.tool_error(f"Trace_A2ml did not consume all events: {tr.errors[:3]}")
+        cur = []
+        for line in tr.raw_lines("<<"):
+            m = re.match(r'<<"FAILED", "([^"]+)">>', line)
+            if m:
+                cur.append(m.group(1))
+                continue
+            m = re.match(r'<<"REJECT", (\d+)>>', line)
+            if m:
+                rejected[base + int(m.group(1)) - 1] = cur or ["?"]
+                cur = []
+                continue
+            m = re.match(r'<<"TREE", (\d+), (".*")>>$', line)
+            if m:
+                trees[base + int(m.group(1)) - 1] = json.loads(json.loads(m.group(2)))
+        distinct += tr.distinct or 0
+        generated += tr.generated or 0
+        tr_all = tr
+        os.remove(p)
+    tr_all.distinct, tr_all.generated = distinct, generated
+    return rejected, trees, tr_all
 
 
 def sig_tokens(text):
